@@ -33,9 +33,10 @@ inductive Ev where
   | prompt (k : NakOrKeepAlive)
   deriving Repr, Inhabited
 
-/-- one loop iteration of a send transaction task (`sent` holds what this iteration transmitted) -/
+/-- one loop iteration of a send transaction task (`sent` / `out` hold what this iteration
+transmitted / indicated to the user) -/
 def sendStep (s : Send.State) (now : Nat) (e : Ev) : Send.State :=
-  let s := { s with sent := none }
+  let s := { s with sent := none, out := [] }
   if s.state == .Terminated then s else
   match e with
   | .pdu p => (Send.processPdu s p now).1
@@ -50,7 +51,7 @@ def sendStep (s : Send.State) (now : Nat) (e : Ev) : Send.State :=
 
 /-- one loop iteration of a receive transaction task (the Prompt command is a no-op there) -/
 def recvStep (s : Recv.State) (now : Nat) (e : Ev) : Recv.State :=
-  let s := { s with sent := none }
+  let s := { s with sent := none, out := [] }
   if s.state == .Terminated then s else
   match e with
   | .pdu p => (Recv.processPdu s p now).1
@@ -77,5 +78,14 @@ def recvRun : Recv.State → List (Nat × Ev) → Recv.State × List Pdu
     let s' := recvStep s now e
     let r := recvRun s' rest
     (r.1, s'.sent.toList ++ r.2)
+
+/-- the indications a history produces, in order -/
+def recvInds : Recv.State → List (Nat × Ev) → List Recv.Ind
+  | _, [] => []
+  | s, (now, e) :: rest => (recvStep s now e).out ++ recvInds (recvStep s now e) rest
+
+def sendInds : Send.State → List (Nat × Ev) → List Send.Ind
+  | _, [] => []
+  | s, (now, e) :: rest => (sendStep s now e).out ++ sendInds (sendStep s now e) rest
 
 end Cfdp.Loop
